@@ -59,8 +59,10 @@ structure Ops (α : Type) extends Arith α where
   closeExtends : Pt α → Pt α → Pt α → Bool
   /-- ArcTo's canonicalisation for rot = 0 (path.go:489-508): start, rx, ry, end ↦ rx, ry, phi -/
   arcFix : Pt α → α → α → Pt α → α × α × α
-  /-- `Path.checkDash(offset, dashes)` (path.go, property C05) as a function of the path length -/
-  checkDash : α → List α → α → List α × Bool
+  /-- the dash decision of `Context.DrawPath` (canvas.go:658-668, since 7030ab4): stroke width, offset, dashes,
+  path length ↦ `checkDash(ScaleDash(width, offset, dashes))`, with the canonical UNSCALED pattern
+  (`dashCanonical`) put back when a pattern remains (path.go, properties C05/C15) -/
+  checkDash : α → α → List α → α → List α × Bool
 
 /-! ## lexed document -/
 
@@ -501,7 +503,7 @@ def drawPath (p : P α) (x y : α) (path : RPath α) : P α :=
   if !(hasFill c) && !(hasStroke o c) then p else
   let m := o.translate (o.mmul (o.reflectYAbout o.ident (o.div p.ch (o.nat 2))) c.view) x y
   let len := p.lens.headD o.zero
-  let (d, ok) := o.checkDash c.dashOff c.dashes len
+  let (d, ok) := o.checkDash c.sw c.dashOff c.dashes len
   let l : Layer α := { path := path.reverse, fill := c.fill, evenOdd := c.evenOdd, stroke := if ok then c.stroke else transparent,
                        sw := c.sw, cap := c.cap, join := c.join, dashOff := c.dashOff, dashes := d, m := m }
   { p with layers := l :: p.layers, lens := p.lens.tail }
@@ -610,6 +612,7 @@ structure SvgHead (α : Type) where
   width : Option (α × String)
   height : Option (α × String)
   viewBox : Option (α × α × α × α)
+  par : String                              -- the preserveAspectRatio attribute ("" if absent)
 
 /-- width, height (as handed to `init`), the view box array and the error flag -/
 def parseViewBox (h : SvgHead α) : α × α × (α × α × α × α) × Bool :=
@@ -640,6 +643,19 @@ def init (width height : α) (vb : α × α × α × α) (err : Bool) (lens : Li
     ctx := { defaultCtx o with view := view }, ctxStack := [],
     st := { miter := o.nat 4 }, stStack := [], elems := [], rules := [], layers := [], lens := lens }
 
+/-- default preserveAspectRatio (xMidYMid meet, svg.go ParseSVG since 94ad01a): the view box is widened
+symmetrically in the slack direction so that `init`'s two scale factors coincide -/
+def fitViewBox (w hh : α) (vb : α × α × α × α) : α × α × α × α :=
+  if o.lt o.zero vb.2.2.1 && o.lt o.zero vb.2.2.2 && o.lt o.zero w && o.lt o.zero hh then
+    let sx := o.div w vb.2.2.1
+    let sy := o.div hh vb.2.2.2
+    if o.lt sx sy then
+      (vb.1, o.sub vb.2.1 (o.div (o.sub (o.div hh sx) vb.2.2.2) (o.nat 2)), vb.2.2.1, o.div hh sx)
+    else if o.lt sy sx then
+      (o.sub vb.1 (o.div (o.sub (o.div w sy) vb.2.2.1) (o.nat 2)), vb.2.1, o.div w sy, vb.2.2.2)
+    else vb
+  else vb
+
 /-- `ParseSVG` on a document whose root is `<svg>` (the root's own attributes are `attrs`) -/
 def parseSVG (h : SvgHead α) (attrs : List (Attr α)) (children : List (Tree α)) (lens : List α) : P α :=
   let (w, hh, vb, e) := parseViewBox o h
@@ -652,6 +668,7 @@ def parseSVG (h : SvgHead α) (attrs : List (Attr α)) (children : List (Tree α
   let (hh, vb) := if given h.height then
       (o.mul hh o.mmPerPx, if o.le vb.2.2.2 o.zero then (vb.1, vb.2.1, vb.2.2.1, o.add vb.2.1 hh) else vb)
     else (hh, vb)
+  let vb := if h.par != "none" then fitViewBox o w hh vb else vb
   walk o (.elem "svg" attrs children) (init o w hh vb e lens)
 
 end Model
